@@ -4,6 +4,8 @@
  * script lines
  *   case <name> <nbpus | synthetic description with '_' for ' '> [model-side layout tokens, ignored here]
  *                                 new topology "pu:<nbpus>" or the given description, HWLOC_CPUKINDS_RANKING unset
+ *   flagcase <name> ...           like case, but the topology (and every XML reload of it) is loaded with
+ *                                 HWLOC_TOPOLOGY_FLAG_NO_CPUKINDS: kinds from the OS / XML are ignored, the application's are not
  *   env <hexstring|->             setenv/unsetenv HWLOC_CPUKINDS_RANKING
  *   reg <set> <forced> <flags> <NULL | n name value ...>     hwloc_cpukinds_register
  *   restrict <set> [flags]        hwloc_topology_restrict(set, flags) (a nodeset with HWLOC_RESTRICT_FLAG_BYNODESET)
@@ -38,6 +40,7 @@ static char *tok[MAXTOK];
 static int ntok;
 
 static hwloc_topology_t topo;
+static unsigned long topo_flags;
 
 static int hexval(int c) { return c >= '0' && c <= '9' ? c - '0' : c >= 'a' && c <= 'f' ? c - 'a' + 10 : c >= 'A' && c <= 'F' ? c - 'A' + 10 : -1; }
 
@@ -171,6 +174,7 @@ static void new_topology(const char *what)
   else snprintf(desc, sizeof desc, "%s", what);
   for (p = desc; *p; p++) if (*p == '_') *p = ' ';
   hwloc_topology_init(&topo);
+  hwloc_topology_set_flags(topo, topo_flags);
   if (hwloc_topology_set_synthetic(topo, desc) < 0) { printf("bad synthetic description %s\n", desc); exit(3); }
   if (hwloc_topology_load(topo) < 0) { printf("load failed\n"); exit(3); }
 }
@@ -185,7 +189,8 @@ int main(int argc, char *argv[])
     ntok = 0;
     for (p = strtok(line, " \n"); p && ntok < MAXTOK; p = strtok(NULL, " \n")) tok[ntok++] = p;
     if (!ntok) continue;
-    if (!strcmp(tok[0], "case")) {
+    if (!strcmp(tok[0], "case") || !strcmp(tok[0], "flagcase")) {
+      topo_flags = tok[0][0] == 'f' ? HWLOC_TOPOLOGY_FLAG_NO_CPUKINDS : 0;
       new_topology(tok[2]);
       printf("case %s\n", tok[1]);
       dump();
@@ -194,6 +199,7 @@ int main(int argc, char *argv[])
     if (!strcmp(tok[0], "caseroot")) {
       if (topo) hwloc_topology_destroy(topo);
       topo = NULL;
+      topo_flags = 0;
       setenv("HWLOC_FSROOT", tok[2], 1);
       setenv("HWLOC_COMPONENTS", "linux,stop", 1);
       setenv("HWLOC_THISSYSTEM", "0", 1);
@@ -314,6 +320,7 @@ int main(int argc, char *argv[])
       rc = hwloc_topology_export_xmlbuffer(topo, &buf, &len, 0);
       if (!rc) {
         hwloc_topology_init(&n);
+        hwloc_topology_set_flags(n, topo_flags);
         rc = hwloc_topology_set_xmlbuffer(n, buf, len);
         if (!rc) rc = hwloc_topology_load(n);
         if (!rc) { hwloc_topology_destroy(topo); topo = n; }
